@@ -126,6 +126,9 @@ pub fn child(k: usize, outdir: &str, seed: u64, thorough: bool) -> serde_json::V
         let tys: Vec<Ty> = if f == F::Case { vec![Ty::Bool(vec![false, true]), arg_ty(&mut r, Cat::Num), arg_ty(&mut r, Cat::Num)] }
             else if f == F::Substr { vec![arg_ty(&mut r, Cat::Txt), Ty::Int(vec![(0, 5)])] }
             else if f == F::Pow { vec![arg_ty(&mut r, Cat::Num), if r.chance(1, 2) { Ty::Int(vec![(-3, 3)]) } else { let a = (r.range(-6, 4) as f64) / 2.0; Ty::Float(vec![(a, a + (r.range(1, 6) as f64) / 2.0)]) }] }
+            else if c == Cat::Num && r.chance(1, 4) {
+                // small float ranges around zero (crossing it, touching it, on either side): interior points matter
+                (0..n).map(|_| { let a = (r.range(-12, 8) as f64) / 4.0; let b = a + (r.range(1, 16) as f64) / 4.0; Ty::Float(vec![(a, b)]) }).collect() }
             else { (0..n).map(|_| arg_ty(&mut r, c)).collect() };
         let dts: Vec<DataType> = tys.iter().map(to_dt).collect();
         progress(outdir, &format!("function {:?} on {}", f, dts.iter().map(|d| d.to_string()).collect::<Vec<_>>().join(", ")));
